@@ -19,13 +19,22 @@ theorem prefix_split {p q A B : Bytes} (h : p ++ q = A ++ B) (_hq : q ≠ []) :
     · left; exact ⟨a, ha, hA.symm⟩
   · right; exact ⟨c, hp, hB.symm⟩
 
+theorem readN_def (n : Nat) (bs : Bytes) :
+    readN n bs = if bs.length < n then .error .eof else .ok (bs.take n) (bs.drop n) := by
+  simp only [readN, List.length_take]
+  by_cases h : bs.length < n
+  · have : min n bs.length < n := by omega
+    simp [h, this]
+  · have : ¬ min n bs.length < n := by omega
+    simp [h, this]
+
 theorem readN_append (s rest : Bytes) : readN s.length (s ++ rest) = .ok s rest := by
-  simp [readN]
+  simp [readN_def]
 
 theorem readN_prefix {s p q : Bytes} (h : p ++ q = s) (hq : q ≠ []) : readN s.length p = .error .eof := by
   subst h
   have : 0 < q.length := List.length_pos_iff.mpr hq
-  simp [readN]; omega
+  simp [readN_def]; omega
 
 /-- sequencing: a decoder that first runs a lawful codec and then continues on the rest -/
 theorem seq_prefix {α β : Type} {c : Codec α} {P : α → Prop} (h : Lawful c P) {v : α} (hv : P v)
